@@ -11,7 +11,7 @@ usage: seedtest.py <dir with patch.diff [demo.diff|demo files] run_demo.sh meta.
 import sys, os, subprocess, json, shutil, time
 
 def sh(cmd, cwd=None, timeout=3600):
-    p = subprocess.run(cmd, cwd=cwd, shell=True, stdout=subprocess.PIPE, stderr=subprocess.STDOUT, text=True, timeout=timeout)
+    p = subprocess.run(cmd, cwd=cwd, shell=True, stdin=subprocess.DEVNULL, stdout=subprocess.PIPE, stderr=subprocess.STDOUT, text=True, timeout=timeout)
     return p.returncode, p.stdout
 
 def main():
@@ -20,13 +20,16 @@ def main():
     keep = sys.argv[sys.argv.index('--keep-as') + 1] if '--keep-as' in sys.argv else None
     patch = f'{d}/patch.diff'
     ran = []
-    wt = f'/tmp/seed/confirm-{os.getpid()}'
+    wt = '/tmp/seed/confirm-wt'   # reused between runs (warm target dir); remove with `git -C /repo worktree remove --force` when done
     res = {'property': prop, 'dir': d}
     try:
-        rc, out = sh(f'git -C /repo worktree add -q --detach {wt} HEAD'); ran.append('git worktree add (scratch)')
+        if not os.path.exists(wt):
+            rc, out = sh(f'git -C /repo worktree add -q --detach {wt} HEAD')
+        sh('git checkout -q --detach main 2>/dev/null; git checkout -q -- . && git clean -fdq -e target', cwd=wt); ran.append('scratch worktree of /repo HEAD')
         # demo on the clean tree
-        rc0, o0 = sh(f'sh {d}/run_demo.sh {wt}', cwd=d, timeout=1800); ran.append('run_demo.sh on clean worktree')
+        rc0, o0 = sh(f'bash {d}/run_demo.sh {wt}', cwd=d, timeout=1800); ran.append('run_demo.sh on clean worktree')
         res['demo_passes_without_patch'] = rc0 == 0
+        if rc0 != 0: res['demo_clean_log'] = o0[-600:]
         sh('git checkout -q -- . && git clean -fdq -e target', cwd=wt)
         rc, out = sh(f'git apply {patch}', cwd=wt)
         res['patch_applies'] = rc == 0
@@ -36,10 +39,11 @@ def main():
             rc1, o1 = sh('cargo test --workspace --no-fail-fast --offline 2>&1 | grep -E "^test result|FAILED|^error" ', cwd=wt, timeout=1800)
             ran.append('cargo test --workspace --no-fail-fast --offline (patched worktree)')
             res['suite_passes_with_patch'] = ('FAILED' not in o1) and ('error' not in o1) and ('test result: ok' in o1)
-            rc2, o2 = sh(f'sh {d}/run_demo.sh {wt}', cwd=d, timeout=1800); ran.append('run_demo.sh on patched worktree')
+            if not res['suite_passes_with_patch']: res['suite_log'] = o1[-600:]
+            rc2, o2 = sh(f'bash {d}/run_demo.sh {wt}', cwd=d, timeout=1800); ran.append('run_demo.sh on patched worktree')
             res['demo_fails_with_patch'] = rc2 != 0
     finally:
-        sh(f'git -C /repo worktree remove --force {wt}')
+        sh('git checkout -q -- . && git clean -fdq -e target', cwd=wt)
     # now the checks against /repo itself
     rc, out = sh(f'git -C /repo apply {patch}')
     if rc != 0:
